@@ -39,7 +39,9 @@ def run(ctx):
         '.derivative_chain')]
     ctx.anchor(len(chains) == 3, 'three derivative_chain calls in jvec')
     nassign = [n for n in ast.walk(jv) if isinstance(n, ast.Assign) and
-               ast.unparse(n.targets[0]) == 'n']
+               isinstance(n.value, ast.IfExp) and isinstance(
+                   n.targets[0], ast.Name)]
+    nname = nassign[0].targets[0].id if len(nassign) == 1 else 'n'
     for case, (hy, hz) in CASES.items():
         env = {'self.model.case': case}
         got = []
@@ -47,7 +49,7 @@ def run(ctx):
             if not eval_guards(c, jv, env, sm.rel):
                 continue
             idx = ast.unparse(c.args[0]).split('[')[1].split(',')[0].strip()
-            if idx == 'n':
+            if idx == nname:
                 fe = FiniteEval(env, where=sm.rel)
                 ctx.anchor(len(nassign) == 1, 'index n of the z part')
                 idx = fe.ev(nassign[0].value)
@@ -69,11 +71,15 @@ def run(ctx):
              n is not jv]
     ctx.anchor(len(inner) == 1, 'task builder inside jvec')
     cb = inner[0]
+    gv0 = find('_g_ = _e_.grid.get_edge_inner_product_deriv(np.ones('
+               '_e_.grid.n_cells * _nc_))(_e_.field) * _cv_', cb)
+    ctx.anchor(len(gv0) == 1, 'inner-product derivative in the jvec builder')
+    CV, NC = gv0[0][1]['_cv_'], gv0[0][1]['_nc_']
     cv = [n for n in ast.walk(cb) if isinstance(n, ast.Assign) and
-          ast.unparse(n.targets[0]) == 'cvector' and not isinstance(
+          ast.unparse(n.targets[0]) == CV and not isinstance(
               n.value, ast.ListComp)]
     nc = [n for n in ast.walk(cb) if isinstance(n, ast.Assign) and
-          ast.unparse(n.targets[0]) == 'ncase']
+          ast.unparse(n.targets[0]) == NC]
     for case, (hy, hz) in CASES.items():
         env = {'self.model.case': case}
         act = [n for n in cv if eval_guards(n, cb, env, sm.rel)]
@@ -83,16 +89,16 @@ def run(ctx):
         txt = ast.unparse(act[0].value).replace(' ', '')
         ncase = ast.literal_eval(actn[0].value)
         if case == 'isotropic':
-            want, wn = ['cvector[0]'], 1
+            want, wn = [f'{CV}[0]'], 1
         else:
-            comps = ['cvector[0]', 'cvector[1]' if hy else 'cvector[0]',
-                     f'cvector[{1 + hy}]' if hz else 'cvector[0]']
+            comps = [f'{CV}[0]', f'{CV}[1]' if hy else f'{CV}[0]',
+                     f'{CV}[{1 + hy}]' if hz else f'{CV}[0]']
             want, wn = comps, 3
         if case == 'triaxial':
-            ok = txt in ('np.r_[cvector].ravel()',
-                         'np.r_[cvector[0],cvector[1],cvector[2]]')
+            ok = txt in (f'np.r_[{CV}].ravel()',
+                         f'np.r_[{CV}[0],{CV}[1],{CV}[2]]')
         elif case == 'isotropic':
-            ok = txt == 'cvector[0]'
+            ok = txt == f'{CV}[0]'
         else:
             ok = txt == 'np.r_[' + ','.join(want) + ']'
         ctx.check('C08.V2.cvector', f'jvec conductivity vector for case '
@@ -123,7 +129,7 @@ def run(ctx):
               'model vector is not volume-averaged (linear) from the model '
               'grid to the computational grid', ctx.where(sm, cb))
     gv = find(f'_g_ = {e}.grid.get_edge_inner_product_deriv(np.ones('
-              f'{e}.grid.n_cells * ncase))({e}.field) * cvector', cb)
+              f'{e}.grid.n_cells * {NC}))({e}.field) * {CV}', cb)
     ctx.check('C08.V3.source', 'jvec inner-product derivative times vector',
               len(gv) == 1, 'edge inner-product derivative is not applied to '
               'the forward field and multiplied by the conductivity vector',
